@@ -13,9 +13,22 @@ variable (s : Session) (p : Part)
 def stored (s : Session) (eid : Nat) (name : String) : Option Action :=
   s.actions.find? fun x => x.eid == eid && x.name == name
 
-/-- timestamps in Go's order: `a.AsTime().Before(b.AsTime())` for normalised nanos -/
-theorem before_iff (a b : Ts) : a.before b = true ↔ a.secs < b.secs ∨ (a.secs = b.secs ∧ a.nanos < b.nanos) := by
+/-- timestamps in the order of the instants they name -/
+theorem before_iff (a b : Ts) :
+    a.before b = true ↔ a.instant.1 < b.instant.1 ∨ (a.instant.1 = b.instant.1 ∧ a.instant.2 < b.instant.2) := by
   simp [Ts.before]
+
+/-- a normalised timestamp names the instant its fields say -/
+theorem instant_of_normalised (t : Ts) (h0 : 0 ≤ t.nanos) (h1 : t.nanos < 1000000000) : t.instant = (t.secs, t.nanos) := by
+  have hq : t.nanos / 1000000000 = 0 := by omega
+  have hm : t.nanos % 1000000000 = t.nanos := by omega
+  simp [Ts.instant, hq, hm]
+
+-- one second and two thousand million nanoseconds less: the instant 999 s, older than 1000 s (the order of the fields says
+-- the opposite: the correction of F43); and the top of the int64 range is the latest instant, not the oldest (F43)
+example : (⟨1001, -2000000000⟩ : Ts).before ⟨1000, 0⟩ = true ∧ (⟨999, 2000000000⟩ : Ts).before ⟨1000, 0⟩ = false ∧
+          (⟨1790000000, 0⟩ : Ts).before ⟨9223372036854775807, 0⟩ = true ∧
+          (⟨9223372036854775807, 1500000000⟩ : Ts).instant = (9223372036854775807, 500000000) := by decide
 
 /-- `before` is a strict order: irreflexive and transitive, and its negation is total -/
 theorem before_irrefl (a : Ts) : a.before a = false := by
